@@ -342,7 +342,7 @@ def check(res, tier, replay=None):
                 for i, c in chunk:
                     td = os.path.join(d, "w%d" % chunk[0][0])
                     c.tr.write(td)
-                    rc, err = run_emu(prep.bdir, td, ["-l"], timeout=L.TIMEOUT)
+                    rc, err = L.run_emu_patient(prep.bdir, td, ["-l"])
                     c.verdict, c.err = verdict(rc, err), err
             idx = list(enumerate(cases))
             n = max(1, vcommon.NCPU)
